@@ -127,8 +127,8 @@ pub fn gen_magic_batch(d: &mut D) -> Vec<Spec> {
                 let mut m = magic(n);
                 match *n {
                     "generics" => {
-                        m.wrap = d.pick(&["plain", "plain", "ast", "ast", "result", "spanned", "with_original"]).to_string();
-                        if m.wrap == "ast" && d.bool() {
+                        m.wrap = d.pick(&["plain", "plain", "ast", "ast", "result", "result_ast", "spanned", "with_original"]).to_string();
+                        if m.wrap == "result_ast" || (m.wrap == "ast" && d.bool()) {
                             m.field_recv = Some(*d.pick(&tps));
                         }
                     }
@@ -181,6 +181,15 @@ pub fn gen_magic_batch(d: &mut D) -> Vec<Spec> {
             }
             if d.ratio(1, 6) {
                 s.container.attributes.push("r#type".into());
+            }
+            // a claimed attribute name may also be in the list of forwarded names: reading wins, the attribute
+            // is not forwarded
+            if d.ratio(1, 5) && !s.container.attributes.is_empty() {
+                let nm = d.pick(&s.container.attributes).clone();
+                if let Fwd::List(l) = &mut s.container.forward_attrs {
+                    let at = d.below(l.len() + 1);
+                    l.insert(at, nm);
+                }
             }
             // ordinary fields
             let nf = d.below(3);
@@ -424,13 +433,14 @@ pub fn gen_elem(w: &World, s: &Spec, d: &mut D, mode: Mode, body_mode: Mode, st:
     // generics
     let mut generics = vec![];
     let ng = d.weighted(&[3, 3, 2, 2]);
-    let tprecv = spec_by(w, gen_m.filter(|m| m.wrap == "ast").and_then(|m| m.field_recv));
+    let tprecv = spec_by(w, gen_m.filter(|m| m.wrap == "ast" || m.wrap == "result_ast").and_then(|m| m.field_recv));
     for i in 0..ng {
         generics.push(match d.below(5) {
             0 => GParam::Lifetime(d.pick(&["'a", "'b: 'a", "'c"]).to_string()),
             1 if i == ng - 1 => GParam::Const(d.pick(&["const N: usize", "const M: u8 = 3"]).to_string()),
             _ => GParam::Type(TypeParamIn {
-                attrs: gen_attrset(w, tprecv, d, Mode::Clean, st, true),
+                // (mistakes inside a type parameter's attributes belong to the body layer, like those of fields and variants)
+                attrs: gen_attrset(w, tprecv, d, if tprecv.is_some() { body_mode } else { Mode::Clean }, st, true),
                 name: format!("{}", ["T", "U", "V"][i % 3]),
                 bounds: d.pick(&["", "Clone", "Clone + 'static", "Iterator<Item = u8> + ?Sized"]).to_string(),
                 default: if d.ratio(1, 4) { Some(d.pick(&["u8", "Vec<String>"]).to_string()) } else { None },
